@@ -115,6 +115,17 @@ def run(tier, seed):
         res.count("attempts", natt); res.count("nstates/%d" % n); res.count("zeta_list_len/%d" % nz)
         res.count("hops-per-case/%s" % ("0" if natt == 0 else "1" if natt == 1 else "2+"))
         res.case(("cum", n, k, tuple(zl), sd, tuple(map(tuple, gs))), natt > 0, dict(n=n, k=k, zeta_list=zl, steps=nsteps, attempts=natt, targets=targets))
+    # ---- tiny per-step rates against a tiny threshold: the accumulation must not lose them (it is kept in extended precision)
+    for rate, zt in [(1e-16, 5.5e-16), (3e-17, 1.0e-16), (1e-17, 4.5e-17), (2e-16, 1.1e-15)]:
+        for n_ in (2, 3):
+            tr = mudslide.TrajectoryCum(StubModel([1.0], n_), [0.0], [1.0], 0, dt=1.0, zeta_list=[zt, 2.0], seed_sequence=11)
+            g_ = [0.0] + [rate / (n_ - 1)] * (n_ - 1); first = None
+            for step in range(40):
+                if tr.hopper(np.array(g_)): first = step; break
+            want = int(math.floor(zt / rate))          # first step k with (k+1)*rate > zt  (1-exp(-x) = x to 1e-32 here)
+            res.count("tiny-rate-sequences"); res.case(("tiny", rate, zt, n_), True)
+            if first != want:
+                bad.append(dict(failed="attempt exactly at the first step where the accumulated probability exceeds the threshold (per-step total rate %g, threshold %g: expected step %d, attempted at %r)" % (rate, zt, want, first), case=dict(rate=rate, zeta=zt, nstates=n_)))
     # ---- the even-sampling class without a spawn stack (its cumulative-FSSH fallback): same crossing rule, fresh thresholds are
     #      plain uniform numbers of the trajectory's own stream (drawn before the target number)
     for it in range(ncase // 4):
